@@ -1,6 +1,6 @@
 (* C06 — Outbound QoS1/2: stored until acknowledged, retransmitted on session resume.
-   Statements only; proofs in Conn/Session.v, Conn/StoreInv.v, Conn/StoreInv2.v, Conn/Own.v, Conn/OwnFrame.v, Conn/OwnStep.v and Conn/Accepted5.v.  Nothing else may be added to this file. *)
-From MQ Require Import Base.Prelude Alloc.Alloc Conn.Types Conn.ConnRecord Conn.Step Corr.ConnTrace Conn.Run Conn.RecvGate Conn.Session Conn.StoreInv Conn.StoreInv2 Conn.Own Conn.OwnFrame Conn.OwnStep Conn.Accepted5.
+   Statements only; proofs in Conn/Session.v, Conn/StoreInv.v, Conn/StoreInv2.v, Conn/Own.v, Conn/OwnFrame.v, Conn/OwnStep.v, Conn/Accepted5.v and Conn/SupStep.v.  Nothing else may be added to this file. *)
+From MQ Require Import Base.Prelude Alloc.Alloc Conn.Types Conn.ConnRecord Conn.Step Corr.ConnTrace Conn.Run Conn.RecvGate Conn.Session Conn.StoreInv Conn.StoreInv2 Conn.Own Conn.OwnFrame Conn.OwnStep Conn.Accepted5 Conn.SupFrame Conn.SupStep.
 
 (* every state: an acknowledgement that matches nothing in flight is handled exactly like a
    protocol error — which erases no stored packet and frees no identifier (C06_error_keeps) *)
@@ -122,6 +122,22 @@ Theorem C06_pubcomp_completes : forall g c id, OWN g c -> mem id (c_pubcomp c) =
   OWN g c1 /\ fresh c1 id /\ c_version c1 = c_version c.
 Proof. exact ack_PC_own. Qed.
 Print Assumptions C06_pubcomp_completes.
+
+(* THE CONVERSE, for a persistent session: every identifier awaited in the PUBACK / PUBREC / PUBCOMP set has its
+   packet in the store ([SUP]: nothing in flight is unsupported) — kept by EVERY call, for a determined version,
+   given that persistence is switched on only while it is on already or nothing is in flight ([sup_op_ok]).  With
+   C06_stored_identifier_held the store and the in-flight sets determine each other. *)
+Theorem C06_step_keeps_awaited_stored : forall g c o,
+  OWN g c -> SUP c -> c_version c <> VUndet -> own_op_ok c o -> sup_op_ok c o ->
+  match step g c o with Ok (c', _, _) => SUP c' | Panic _ => True end.
+Proof. exact step_keeps_SUP. Qed.
+Print Assumptions C06_step_keeps_awaited_stored.
+
+(* the store never holds anything but QoS 1/2 PUBLISH and PUBREL entries: every call, no hypothesis *)
+Theorem C06_step_keeps_store_entries : forall g c o, ENT c ->
+  match step g c o with Ok (c', _, _) => ENT c' | Panic _ => True end.
+Proof. exact step_keeps_ENT. Qed.
+Print Assumptions C06_step_keeps_store_entries.
 
 (* C06_partial: on the MODEL side nothing of the property is left to the monitor alone.  The implementation
    is judged by mon_c06 (ghost store from operations and events against the exported store) and tied to the
